@@ -144,8 +144,11 @@ type StreamConn struct {
 
 	Reads      int
 	Closes     int
-	Accepted   bool // handed to the server by Accept
-	FailWrites int  // inject: fail the next n writes after accepting a prefix
+	Accepted   bool     // handed to the server by Accept
+	Frozen     bool     // the application took the connection over (Hijack): the server must not touch it any more
+	Touched    []string // operations made on the connection while Frozen, at a later simulated instant than the freeze
+	FrozenAt   time.Time
+	FailWrites int // inject: fail the next n writes after accepting a prefix
 }
 
 // Pair creates a connected pair (client side, server side).
@@ -170,6 +173,22 @@ func (n *Net) Pair(keep bool) (cli, srv *StreamConn) {
 func (c *StreamConn) CutAfter(k int, rst bool) {
 	c.rx.cutAt = c.rx.total + k
 	c.rx.cutRST = rst
+}
+
+// Freeze marks the server-side connection whose peer has the given address as
+// taken over by the application.
+//
+//go:norace
+func (n *Net) Freeze(remote string) *StreamConn {
+	n.K.Lock()
+	defer n.K.Unlock()
+	for _, c := range n.Conns {
+		if c.Role == "srv" && c.remote.S == remote {
+			c.Frozen, c.FrozenAt = true, time.Now()
+			return c
+		}
+	}
+	return nil
 }
 
 // Sent returns every octet written into c so far (requires keep).
@@ -240,6 +259,11 @@ func (c *StreamConn) Read(p []byte) (int, error) {
 	o := &readOp{c: c, p: p}
 	r := &kernel.Req{Site: c.Role + ".stream.Read", Obj: c.ID, Op: o}
 	c.Reads++
+	if c.Frozen && time.Now().After(c.FrozenAt) {
+		c.n.K.Lock()
+		c.Touched = append(c.Touched, "Read")
+		c.n.K.Unlock()
+	}
 	c.n.K.Block(r)
 	if r.Aborted {
 		return 0, ErrClosed
@@ -425,6 +449,9 @@ func (c *StreamConn) Close() error {
 	k.Lock()
 	defer k.Unlock()
 	c.Closes++
+	if c.Frozen && time.Now().After(c.FrozenAt) {
+		c.Touched = append(c.Touched, "Close")
+	}
 	if c.closed {
 		return ErrClosed
 	}
@@ -495,6 +522,9 @@ func (c *StreamConn) SetReadDeadline(t time.Time) error {
 	k := c.n.K
 	k.Lock()
 	defer k.Unlock()
+	if c.Frozen && time.Now().After(c.FrozenAt) {
+		c.Touched = append(c.Touched, "SetReadDeadline")
+	}
 	if c.closed {
 		return ErrClosed
 	}
